@@ -60,6 +60,21 @@ func matches(template, path string) bool {
 			}
 			continue
 		}
+		if paramRe.MatchString(ts[i]) {
+			// a parameter inside a segment (v{id}): the literal parts must match, the parameter takes at least one character
+			var sb strings.Builder
+			sb.WriteString("^")
+			last := 0
+			for _, loc := range paramRe.FindAllStringIndex(ts[i], -1) {
+				sb.WriteString(regexp.QuoteMeta(ts[i][last:loc[0]]) + "[^/]+")
+				last = loc[1]
+			}
+			sb.WriteString(regexp.QuoteMeta(ts[i][last:]) + "$")
+			if !regexp.MustCompile(sb.String()).MatchString(ps[i]) {
+				return false
+			}
+			continue
+		}
 		if ts[i] != ps[i] {
 			return false
 		}
